@@ -87,6 +87,10 @@ def run_shim(script_path, events_path, mode="run", timeout=3600):
 # --------------------------------------------------------------------------- TLC
 def _java(args, env_extra, timeout, xmx="4g", xss=None):
     opts = "-DTLA-Library=%s" % SPEC
+    if "-metadir" in args:
+        # TLC unpacks its standard modules into java.io.tmpdir on every start: keep that inside the run's own
+        # scratch directory (removed by the caller) instead of littering /tmp
+        opts += " -Djava.io.tmpdir=%s" % args[args.index("-metadir") + 1]
     if xss:
         opts += " -Xss%s" % xss
     env = dict(os.environ, JAVA_TOOL_OPTIONS=(opts + " " + env_extra.pop("_JTO", "")).strip())
